@@ -8,6 +8,8 @@
  N3 OPEN-REBUILDS       opening an index file repopulates row_id_map (insert inside a loop over stored nodes).
  N3b REBUILD-ALL-SLOTS the rebuild loop's upper bound is the page's slot count, not a count of live nodes.
  N4 DELETE-COUNTS       delete() marks the node, queues it for vacuum and decrements the node count together.
+ N5 CANDIDATE-PAIRED    where the node given to Candidate::new is a reassigned variable, the distance given with it is
+                        reassigned in the same places (the seed of the layer-0 beam search carries its own distance).
 Ranking, recall, quantisation error and entry-point replacement are NOT decided (the entry-point observation of the design could
 not be demonstrated and is not armed).
 """
@@ -82,3 +84,52 @@ def run(ctx):
     have = {c.name.rsplit("::", 1)[-1] for c in de.calls}
     ctx.ob("N4.DELETE-COUNTS", "delete", all(x in have for x in need), "mark + vacuum queue + count kept together" if all(x in have for x in need) else
            "delete() misses %s" % [x for x in need if x not in have], de.loc())
+    paired_candidate(ctx)
+
+
+def _root(f, local, depth=6):
+    """follow single-definition plain copies back to the variable the source names"""
+    while depth > 0:
+        depth -= 1
+        ds = f.defs().get(local, [])
+        if len(ds) != 1 or ds[0][0] != "stmt" or ds[0][3][0] != "use":
+            return local
+        q = operand_place(ds[0][3][1])
+        if q is None or q[1]:
+            return local
+        local = q[0]
+    return local
+
+
+def paired_candidate(ctx):
+    """N5 CANDIDATE-PAIRED: a Candidate is (node, distance-of-that-node).  Where the node handed to Candidate::new is a variable
+    that is reassigned (the cursor of the greedy descent through the upper layers), the distance handed with it must be a variable
+    reassigned in the same blocks: a distance that is not updated when the node moves belongs to a different node, and beam search
+    never recomputes the distance of its seed, so the seed is ranked (or dropped from the top-k) by another node's distance."""
+    m = ctx.m
+    n = 0
+    for f in sorted(m.fns.values(), key=lambda f: f.id):
+        if not f.id.startswith("hnsw::"):
+            continue
+        for c in f.calls:
+            if not c.name.endswith("hnsw::search::Candidate::new") or len(c.args) != 2:
+                continue
+            pn, pd = operand_place(c.args[0]), operand_place(c.args[1])
+            if pn is None or pd is None or pn[1] or pd[1]:
+                continue
+            rn, rd = _root(f, pn[0]), _root(f, pd[0])
+            nb = sorted({d[1] for d in f.defs().get(rn, [])})
+            db = sorted({d[1] for d in f.defs().get(rd, [])})
+            n += 1
+            if len(nb) <= 1:
+                ctx.ob("N5.CANDIDATE-PAIRED", "%s@%s" % (f.id.rsplit("::", 1)[-1], len([1 for o in ctx.obs if o["rule"] == "N5.CANDIDATE-PAIRED" and o["key"].startswith(f.id.rsplit("::", 1)[-1] + "@")])),
+                       True, "node is assigned once", c.loc())
+                continue
+            missing = [b for b in nb if b not in db]
+            names = {d[1][0]: d[0] for d in f.dbg if not d[1][1]}
+            ctx.ob("N5.CANDIDATE-PAIRED", "%s@%s" % (f.id.rsplit("::", 1)[-1], len([1 for o in ctx.obs if o["rule"] == "N5.CANDIDATE-PAIRED" and o["key"].startswith(f.id.rsplit("::", 1)[-1] + "@")])),
+                   not missing, "node `%s` and distance `%s` are reassigned together (%d site(s))" % (names.get(rn, rn), names.get(rd, rd), len(nb)) if not missing else
+                   "Candidate::new(%s, %s): `%s` is reassigned at L%s but `%s` is not reassigned there — the candidate carries the distance of a "
+                   "different node and beam search never recomputes its seed's distance" % (names.get(rn, rn), names.get(rd, rd), names.get(rn, rn),
+                                                                                         f.blocks[missing[0]].get("l"), names.get(rd, rd)), c.loc())
+    ctx.floor("N5.candidate_sites", n, 4)
